@@ -210,6 +210,49 @@ def worker(args):
             "outcome": hashlib.sha1(b"".join(hashes)).hexdigest()[:10]}
 
 
+DT2 = 0.5          # second grid: with dt = 0.5 the float time stamps of the grid points are whole numbers (1.0, 2.0, -1.0, ...)
+STARTS2 = (0.0, -1.0, 2.0, 0.25)
+
+
+def integral_time_worker(args):
+    """single controls and ordered pairs given by float time on a grid whose time stamps are integral floats"""
+    idx, sched = args
+    p2 = R.half_props(H0, DT2)
+    pre, post = {}, {}
+    for (st, sd, sp, mp) in sched:
+        tgt = pre if sd == "pre" else post
+        tgt[st] = MAPS[mp] @ tgt[st] if st in tgt else MAPS[mp]
+    ref = np.array(R.simulate(M.RHO_GEN2, [], lambda j, k: None, lambda k: p2, N, pre, post))
+    out = []
+    for start in STARTS2:
+        ctrl = oq.Control(D)
+        stamps = []
+        for (st, sd, sp, mp) in sched:
+            off = {"fgrid": 0.0, "foff+": 0.3, "foff-": -0.3}[sp]
+            t = float(start + (st + off) * DT2)
+            stamps.append(t)
+            ctrl.add_single(t, MAPS[mp].copy(), post=(sd == "post"))
+        dyn = oq.compute_dynamics(oq.System(H0), M.RHO_GEN2, control=ctrl, start_time=start, dt=DT2, num_steps=N,
+                                  progress_type="silent")
+        got = np.array(dyn.states)
+        dev = np.abs(got - ref).max(axis=(1, 2))
+        if dev.max() > TOL:
+            whole = any(float(t).is_integer() for t in stamps)
+            out.append((f"single|float-time-{'whole-number' if whole else 'fractional'}|dt=0.5|stack{len(sched)}|state-mismatch",
+                        f"schedule {sched} dt={DT2} start={start} (time stamps {stamps}): |rho-ref|={dev.max():.2e} first at step "
+                        f"{int(np.argmax(dev > TOL))}"))
+    return {"idx": idx, "vio": out, "nruns": len(STARTS2)}
+
+
+def integral_time_schedules():
+    out = []
+    for st, sd, sp, mp in itertools.product(range(N + 1), ("pre", "post"), ("fgrid", "foff+", "foff-"), ("kick", "reset")):
+        out.append(((st, sd, sp, mp),))
+    for st, sd, s1, s2 in itertools.product(range(N + 1), ("pre", "post"), ("fgrid", "foff+"), ("fgrid", "foff-")):
+        out.append(((st, sd, s1, "kick"), (st, sd, s2, "reset")))
+    return out
+
+
 def chain_sequences(tier):
     """insertion sequences over both sites of a 2-site chain: every word of length 3 (thorough: and 4) over
     {site 0, site 1} x {kick, reset, proj}, all controls at one (step, side) slot -- so the controls of one site are
@@ -269,6 +312,11 @@ def run(tier, seed):
     rep = Report(LEVEL)
     scheds = schedules(tier)
     res = pmap(worker, list(enumerate(scheds)), seed=seed)
+    isch = integral_time_schedules()
+    ires = pmap(integral_time_worker, list(enumerate(isch)), seed=seed)
+    for sq, r in zip(isch, ires):
+        for cls, what in r["vio"]:
+            rep.add(Violation(cls, what, {"integral_time_schedule": [list(c) for c in sq]}))
     cseqs = chain_sequences(tier)
     cres = pmap(chain_multi_worker, list(enumerate(cseqs)), seed=seed)
     for sq, r in zip(cseqs, cres):
@@ -287,7 +335,7 @@ def run(tier, seed):
         "states": len(scheds) + len(cseqs),
         "transitions": nruns + len(cseqs),
         "traces_validated_against_impl": nruns + len(cseqs),
-        "two_site_insertion_sequences": len(cseqs),
+        "two_site_insertion_sequences": len(cseqs), "schedules_on_the_dt_0.5_grid": len(isch),
         "distinct_outcomes": len(outcomes),
         "schedule_classes": classes,
         "exhaustive": True,
@@ -297,7 +345,8 @@ def run(tier, seed):
                 "schedule is executed with/without an exact ancilla PT, start_time 0 and 1.7, and (int schedules) on either "
                 "site of a 2-site chain via PtTebd; plus every insertion word of length 3 (4 at two slots; thorough: all) over "
                 "{site 0, site 1} x 3 maps at one slot and length-3 words spread over mixed slots, on a 2-site chain with "
-                "controls on both sites; transitions = real executions",
+                "controls on both sites; single controls and pairs by float time on a dt = 0.5 grid (whole-number time stamps) at "
+                "start times 0, -1, 2, 0.25; transitions = real executions",
         "samples": [[list(c) for c in scheds[(seed * 37) % len(scheds)]], [list(c) for c in scheds[500]]],
     }
     rep.assumptions = ["dense reference mc/refmodel.simulate with insertion-order composition",
@@ -306,6 +355,9 @@ def run(tier, seed):
 
 
 def replay(rp):
+    if "integral_time_schedule" in rp:
+        r = integral_time_worker((0, tuple(tuple(c) for c in rp["integral_time_schedule"])))
+        return {"obs": r["vio"], "violation": r["vio"][0][0] if r["vio"] else None}
     if "chain_sequence" in rp:
         r = chain_multi_worker((0, tuple(tuple(c) for c in rp["chain_sequence"])))
         return {"obs": r["vio"], "violation": r["vio"][0][0] if r["vio"] else None}
